@@ -45,6 +45,10 @@ func c06FillRes(res pcommon.Resource) {
 	res.Attributes().PutStr("r", "R")
 	res.Attributes().PutEmptyMap("m").PutStr("k", "v")
 	res.Attributes().PutEmptySlice("l").AppendEmpty().SetStr("x")
+	res.Attributes().PutInt("n", 1)
+	res.Attributes().PutDouble("d", 1.5)
+	res.Attributes().PutBool("b", false)
+	res.Attributes().PutEmptyBytes("y").FromRaw([]byte{1, 2})
 }
 
 func c06MutRes(res pcommon.Resource, tag string) {
@@ -53,6 +57,19 @@ func c06MutRes(res pcommon.Resource, tag string) {
 	m.Map().PutStr("k", tag)
 	l, _ := res.Attributes().Get("l")
 	l.Slice().At(0).SetStr(tag)
+	// in-place overwrites of existing primitive values (same kind, new content)
+	if v, ok := res.Attributes().Get("n"); ok {
+		v.SetInt(v.Int() + int64(len(tag)) + 1)
+	}
+	if v, ok := res.Attributes().Get("d"); ok {
+		v.SetDouble(v.Double() + float64(len(tag)) + 1)
+	}
+	if v, ok := res.Attributes().Get("b"); ok {
+		v.SetBool(!v.Bool())
+	}
+	if v, ok := res.Attributes().Get("y"); ok && v.Bytes().Len() > 0 {
+		v.Bytes().SetAt(0, v.Bytes().At(0)+byte(len(tag))+1)
+	}
 }
 
 func c06Guard(f func()) (panicked bool) {
